@@ -1298,15 +1298,25 @@ fn completed_shard(w: &World, p: usize) -> Option<(u64, u32)> {
     }
     None
 }
-fn level16_root<H: Hashable + Clone, const D: u8>(f: &Frontier<H, D>, k: u64) -> H {
+/// Root of shard `k` (level 16): the frontier `before` (fewer than (k+1)*2^16 leaves) extended with
+/// `leaves` until the shard is exactly full.
+fn shard_root_by_append<H: Hashable + Clone, const D: u8>(before: &Frontier<H, D>, leaves: &[H], k: u64) -> H {
+    let mut f = before.clone();
+    for l in leaves {
+        if f.tree_size() == (k + 1) * SHARD {
+            break;
+        }
+        f.append(l.clone());
+    }
+    assert_eq!(f.tree_size(), (k + 1) * SHARD);
+    f.value().expect("non-empty").root(Some(Level::from(16)))
+}
+/// the level-16 ommer of a frontier whose position has bit 16 set (root of the shard before it)
+fn level16_ommer<H: Hashable + Clone, const D: u8>(f: &Frontier<H, D>) -> H {
     let ne = f.value().expect("non-empty");
     let pos = u64::from(ne.position());
-    if pos + 1 == (k + 1) * SHARD {
-        ne.root(Some(Level::from(16)))
-    } else {
-        assert_eq!(pos >> 16, k + 1);
-        ne.ommers()[(pos & (SHARD - 1)).count_ones() as usize].clone()
-    }
+    assert_eq!((pos >> 16) & 1, 1);
+    ne.ommers()[(pos & (SHARD - 1)).count_ones() as usize].clone()
 }
 
 /// `put_*_subtree_roots` with the chain's own roots of the shards completed so far (as a light
@@ -1315,34 +1325,38 @@ fn emit_roots(w: &mut World, p: usize, r: &mut Rng, st: &mut Stats) {
     use zcash_client_backend::data_api::chain::CommitmentTreeRoot;
     let Some((k, h)) = completed_shard(w, p) else { return };
     let pre = read_ledger(&mut w.db);
-    let after = w.state_after(h).unwrap().clone();
+    let before = w.state_after(h - 1).unwrap().clone();
+    let blk = w.chain[(h - BASE) as usize].cb.clone();
     let eh = BlockHeight::from_u32(h);
     // a shard below the birthday (k = 1): its root is the level-16 ommer of the birthday frontier
     let res: Result<(), String> = match p {
         0 => {
             let mut roots = vec![];
             if k == 1 {
-                roots.push(CommitmentTreeRoot::from_parts(BlockHeight::from_u32(BASE - 100), level16_root(w.genesis.final_sapling_tree(), 0)));
+                roots.push(CommitmentTreeRoot::from_parts(BlockHeight::from_u32(BASE - 100), level16_ommer(w.genesis.final_sapling_tree())));
             }
-            roots.push(CommitmentTreeRoot::from_parts(eh, level16_root(after.final_sapling_tree(), k)));
+            let ls: Vec<sapling::Node> = blk.vtx.iter().flat_map(|t| t.outputs.iter()).map(|o| sapling::Node::from_cmu(&o.cmu().unwrap())).collect();
+            roots.push(CommitmentTreeRoot::from_parts(eh, shard_root_by_append(before.final_sapling_tree(), &ls, k)));
             let db = &mut w.db;
             catch(|| db.put_sapling_subtree_roots(0, &roots)).map_or(Err("PANIC".into()), |x| x.map_err(|e| format!("{e:?}")))
         }
         1 => {
             let mut roots = vec![];
             if k == 1 {
-                roots.push(CommitmentTreeRoot::from_parts(BlockHeight::from_u32(BASE - 100), level16_root(w.genesis.final_orchard_tree(), 0)));
+                roots.push(CommitmentTreeRoot::from_parts(BlockHeight::from_u32(BASE - 100), level16_ommer(w.genesis.final_orchard_tree())));
             }
-            roots.push(CommitmentTreeRoot::from_parts(eh, level16_root(after.final_orchard_tree(), k)));
+            let ls: Vec<orchard::tree::MerkleHashOrchard> = blk.vtx.iter().flat_map(|t| t.actions.iter()).map(|a| orchard::tree::MerkleHashOrchard::from_cmx(&a.cmx().unwrap())).collect();
+            roots.push(CommitmentTreeRoot::from_parts(eh, shard_root_by_append(before.final_orchard_tree(), &ls, k)));
             let db = &mut w.db;
             catch(|| db.put_orchard_subtree_roots(0, &roots)).map_or(Err("PANIC".into()), |x| x.map_err(|e| format!("{e:?}")))
         }
         _ => {
             let mut roots = vec![];
             if k == 1 {
-                roots.push(CommitmentTreeRoot::from_parts(BlockHeight::from_u32(BASE - 100), level16_root(w.genesis.final_ironwood_tree(), 0)));
+                roots.push(CommitmentTreeRoot::from_parts(BlockHeight::from_u32(BASE - 100), level16_ommer(w.genesis.final_ironwood_tree())));
             }
-            roots.push(CommitmentTreeRoot::from_parts(eh, level16_root(after.final_ironwood_tree(), k)));
+            let ls: Vec<orchard::tree::MerkleHashOrchard> = blk.vtx.iter().flat_map(|t| t.ironwood_actions.iter()).map(|a| orchard::tree::MerkleHashOrchard::from_cmx(&a.cmx().unwrap())).collect();
+            roots.push(CommitmentTreeRoot::from_parts(eh, shard_root_by_append(before.final_ironwood_tree(), &ls, k)));
             let db = &mut w.db;
             catch(|| db.put_ironwood_subtree_roots(0, &roots)).map_or(Err("PANIC".into()), |x| x.map_err(|e| format!("{e:?}")))
         }
@@ -1538,7 +1552,7 @@ fn scripted_histories(seed: u64, r: &mut Rng, st: &mut Stats) {
         }
         let iv = 144;
         let mut w = mk_world(seed, 1_000_008, iv);
-        let n: u32 = std::env::var("C06_GAPN").ok().and_then(|s| s.parse().ok()).unwrap_or(98);
+        let n: u32 = std::env::var("C06_GAPN").ok().and_then(|s| s.parse().ok()).unwrap_or(99);
         for h in 0..(22 + n) {
             w.push_block(&[(h as usize % 2, h % 7 == 0)]);
         }
@@ -1586,7 +1600,17 @@ fn scripted_histories(seed: u64, r: &mut Rng, st: &mut Stats) {
 fn wallet_history(seed: u64, idx: u64, r: &mut Rng, st: &mut Stats, long: bool) {
     let iv = *r.pick(&[2u32, 3, 5, 7, 12, 144]);
     let profile = r.below(5);
-    let mut w = mk_world(seed, idx, iv);
+    // a third of the histories start from a birthday frontier just below a shard boundary
+    let mut gsize = [0u64; 3];
+    if r.chance(1, 3) {
+        for p in 0..3 {
+            if r.chance(1, 2) {
+                gsize[p] = (1 + r.below(2)) * SHARD - 1 - r.below(30);
+            }
+        }
+        st.bump("histories_near_shard_end");
+    }
+    let mut w = mk_world_b(seed, idx, iv, gsize);
     if trace() {
         eprintln!("hist {idx} iv {iv} profile {profile} long {long}");
     }
@@ -1676,6 +1700,12 @@ fn wallet_history(seed: u64, idx: u64, r: &mut Rng, st: &mut Stats, long: bool) 
             scanned_hi = scanned_hi.max(to);
         }
         ops_done += 1;
+        if gsize.iter().any(|g| *g > 0) && r.chance(1, 3) {
+            let p = r.below(3) as usize;
+            if gsize[p] > 0 {
+                emit_roots(&mut w, p, r, st);
+            }
+        }
     }
 }
 
